@@ -81,7 +81,9 @@ def run(rep, tier, rng):
                 shx = refesri.encode_shx(model, entries=entries)
                 for ops in histories(n, mi + pi):
                     for req in ([-1] if (code == 0 or any(r["shape"]["code"] == 0 for r in model["records"])) else [-1, code]):
-                        cases.append(C.read_case(req, shp, shx, ops))
+                        # every fifth history on sources (both .shp and .shx) that deliver a few bytes per read call
+                        sched = [[3], [7, 1, 5], [8], [1]][len(cases) % 4] if len(cases) % 5 == 2 else ()
+                        cases.append(C.read_case(req, shp, shx, ops, sched=sched))
                         meta.append((items, n, ops, perm, fillers, code))
                 rep.dist("perm_identity" if list(perm) == sorted(perm) else "perm_other")
                 rep.dist("leading_filler_words_%d" % min(fillers[0], 4))
@@ -153,6 +155,13 @@ def run(rep, tier, rng):
             nfail += 1
             if nfail == 1:
                 rep.violation({"kind": "oracle", "what": msg, "case_kind": "path", "physical_order": list(perm)})
+    # the index of more than 1024 entries on disk (the path-based readers go through std's 8 KiB buffered reader: the
+    # entries straddle its refills), read by path
+    msg = pathio.check(rep, dev, "c14", "big.index", big_shp, big_shx, 1, "index of %d entries (reversed layout) on disk" % nbig)
+    pn += 1
+    if msg:
+        nfail += 1
+        rep.violation({"kind": "oracle", "what": msg, "case_kind": "path"})
     pathio.cleanup("c14")
     rep.cov["permuted_layouts_read_by_path"] = pn
     # entries beyond the end
